@@ -133,6 +133,12 @@ func (r restClientProtocol) encodeEnd(op *operation, end *responseEnd, writer io
 	}
 	stat := grpcStatusFromError(cerr)
 	bin, err := op.client.codec.MarshalAppend(nil, stat)
+	if err != nil && len(stat.GetDetails()) > 0 {
+		// Details of a type the codec does not know cannot be rendered; the code and
+		// message still can.
+		stat.Details = nil
+		bin, err = op.client.codec.MarshalAppend(nil, stat)
+	}
 	if err != nil {
 		// Hardcode the error to be a JSON-encoded gRPC status.
 		bin = []byte(`{"code":13,"message":"failed to marshal end error"}`)
